@@ -997,9 +997,18 @@ func (w *World) ghostWrites(fn *ssa.Function, seen map[*ssa.Function]bool) []str
 	for _, b := range fn.Blocks {
 		for _, in := range b.Instrs {
 			if c, ok := in.(ssa.CallInstruction); ok {
-				if cal := c.Common().StaticCallee(); cal != nil && w.contractFor(cal) != nil {
+				// follow every statically known callee (contracted or not): an
+				// uncontracted helper may call a contracted function that sets ghosts
+				if cal := c.Common().StaticCallee(); cal != nil && len(seen) < 4000 {
 					for _, g := range w.ghostWrites(cal, seen) {
 						set[g] = true
+					}
+				}
+				if mc, ok := c.Common().Value.(*ssa.MakeClosure); ok {
+					if f, ok := mc.Fn.(*ssa.Function); ok {
+						for _, g := range w.ghostWrites(f, seen) {
+							set[g] = true
+						}
 					}
 				}
 			}
